@@ -32,6 +32,20 @@ let run_array toks =
        add ("Some " ^ zs v ^ " W" ^ S.concat "+" changed)
      | None, None -> add "None"
      | _ -> add "MODEL-INCONSISTENT get/set")
+  (* the 64-bit layer (Model/Word.v): Array::new's checked element count, saturating strides, flat index with overflow *)
+  | "wnew" :: len :: sh :: rest ->
+    let sh = parse_list sh in
+    if not (array_new_w (ZA.of_string len) sh) then add "Err"
+    else begin
+      add "Ok";
+      (match rest with
+       | [idxs] ->
+         List.iter (fun t ->
+           match flat_index_w (strides_w sh) sh (parse_list t) with
+           | WNone -> add " N" | WSome f -> add (" S" ^ zs f) | WOverflow -> add " OVERFLOW")
+           (S.split_on_char ';' idxs)
+       | _ -> ())
+    end
   | ["getaxis"; sh; a; i] ->
     (match get_axis (ramp (parse_list sh)) (ZA.of_string a) (ZA.of_string i) with
      | Some v -> add ("Some dims=" ^ string_of_int (List.length v.vshape)) | None -> add "None")
@@ -423,7 +437,7 @@ let run_case line =
   | [] -> ()
   | op :: _ ->
     (match op with
-     | "get" | "getmut" | "getaxis" | "view" | "axisiter" | "indices" | "indiceshist" | "viewhist" | "toarray" | "axisfold" | "sum" -> run_array toks
+     | "get" | "wnew" | "getmut" | "getaxis" | "view" | "axisiter" | "indices" | "indiceshist" | "viewhist" | "toarray" | "axisfold" | "sum" -> run_array toks
      | "fold" | "marg" | "keep" | "project" | "pmf" | "binom" -> run_spectrum toks
      | "npyw" | "npyr" | "textw" | "read" | "fmt" | "parse" | "detect" -> run_bytes toks
      | "classify" | "sites" | "create" | "smapfile" | "genosm" | "genosv" -> run_create toks
